@@ -604,7 +604,14 @@ pub fn gen_script(rng: &mut Rng, programs: Vec<Cmd>, host: HostSel, sc: &ScriptC
         for a in &batch {
             apply_to_model(&mut m, a);
         }
+        let was_drop = batch.iter().any(|a| matches!(a, Action::Drop { .. }));
         steps.push(batch);
+        if was_drop && races && deferring {
+            m.settle(&none);
+            let a = Action::Event(Event::Noop);
+            apply_to_model(&mut m, &a);
+            steps.push(vec![a]);
+        }
         // in the drain phase zombies are reaped as soon as possible
         let z: BTreeSet<u64> = {
             let mut t = m.clone();
